@@ -6,8 +6,10 @@ package main
 
 import (
 	"encoding/json"
+	"fmt"
 	"os"
 	"strings"
+	"time"
 
 	"verif/harness/lib"
 )
@@ -51,14 +53,21 @@ func main() {
 		h.replay(f.Replay)
 		lib.Finish(f, res)
 	}
-	h.probes()
-	h.svCorrespondence()
-	h.runnerAll()
-	h.blockTxAll()
-	h.fullAll()
-	h.headstateFamily()
-	h.sdlFamily()
-	h.blockTxWriteFailures()
+	phases := []struct {
+		name string
+		f    func()
+	}{
+		{"probes", h.probes}, {"registration", h.registrationTie}, {"schemaversion", h.svCorrespondence},
+		{"pipeline", h.pipeAll}, {"runner", h.runnerAll}, {"blocktx", h.blockTxAll}, {"upgrade", h.fullAll},
+		{"headstate", h.headstateFamily}, {"statedifflength", h.sdlFamily}, {"blocktx-writefail", h.blockTxWriteFailures},
+	}
+	var timing []string
+	for _, ph := range phases {
+		t0 := time.Now()
+		ph.f()
+		timing = append(timing, fmt.Sprintf("%s=%.1fs", ph.name, time.Since(t0).Seconds()))
+	}
+	res.Note("phase wall times: %s", strings.Join(timing, " "))
 	lib.Finish(f, res)
 }
 
